@@ -4,6 +4,7 @@ P=$1; D=$(realpath "$2"); shift 2
 W=/tmp/seedtest_$$
 git -C /repo worktree add -q --detach $W HEAD || exit 3
 if ! git -C $W apply "$D"; then echo "PATCH DOES NOT APPLY"; git -C /repo worktree remove --force $W; exit 3; fi
-cd /verif && RALLY_REPO_ROOT=$W ./check $P --tier quick "$@" 2>&1 | tail -4
-echo "exit=$?"
+cd /verif && RALLY_REPO_ROOT=$W ./check $P --tier quick "$@" > /tmp/seedtest_$$.out 2>&1; rc=$?
+tail -4 /tmp/seedtest_$$.out; rm -f /tmp/seedtest_$$.out
+echo "exit=$rc"
 git -C /repo worktree remove --force $W
